@@ -382,7 +382,14 @@ class Splitter:
                 second_match=start_bracket_mark.group(0),
             )
         end_bracket_index = self._move_to_closed_bracket()
-        comment_str = self.bibstr[start_bracket_mark.end() : end_bracket_index].strip()
+        comment_str = self.bibstr[start_bracket_mark.end() : end_bracket_index]
+        # Strip the comment, but keep a trailing blank which is escaped by a backslash:
+        #   without it, the backslash would escape whatever is written behind the comment.
+        without_trailing_blanks = comment_str.rstrip()
+        num_backslashes = len(without_trailing_blanks) - len(without_trailing_blanks.rstrip("\\"))
+        if num_backslashes % 2 == 1:
+            without_trailing_blanks = comment_str[: len(without_trailing_blanks) + 1]
+        comment_str = without_trailing_blanks.lstrip()
         return ExplicitComment(
             start_line=start_line,
             comment=comment_str,
